@@ -442,7 +442,7 @@ pub fn run(ctx: &mut Ctx) {
     // (runs beside the other stages; joined at the end)
     let pause = ctx.tier.pick(3_600u64, 12_000u64);
     let slow = fs.then(|| std::thread::spawn(move || slow_sender(pause)));
-    ctx.rule = "messages over channel ids (0, broadcast, random), all nine commands, payload lengths (every value 0..=7700, 65535/65536/70000, random) with zero / 0xFF / pseudo-random contents: sender output parsed by an independent packet parser and fed to a fresh receiver; the delivered message is sent on again and must arrive at the next receiver unchanged. Sequences of 1-6 transmissions through one receiver (a third of them repeat the transmission before), and every command with every one-byte payload value followed by transmissions on other channels. Interleavings of 2-4 channels: ALL order-preserving merges when the streams have at most 9 packets in total, generated merges otherwise (uniformly mixed ones with up to 26 packets per channel, and skewed ones in which one channel pauses inside its message while others send whole messages of up to 129 packets and a further channel starts only afterwards; a third of the generated merges run on a receiver that still holds given-up transmissions on the same channels, half of them see stray continuation packets of an idle channel). Non-trivial = message with at least one continuation packet, a refused over-long payload, or a merge of at least two channels; distinct by message / by (messages, order).".into();
+    ctx.rule = "messages over channel ids (0, broadcast, random), all nine commands, payload lengths (every value 0..=7700, 65535/65536/70000, random) with zero / 0xFF / pseudo-random contents: sender output parsed by an independent packet parser and fed to a fresh receiver; the delivered message is sent on again and must arrive at the next receiver unchanged. Sequences of 1-6 transmissions through one receiver (a third of them repeat the transmission before), and every command with every one-byte payload value followed by transmissions on other channels. Interleavings of 2-4 channels: ALL order-preserving merges when the streams have at most 9 packets in total, generated merges otherwise (uniformly mixed ones with up to 26 packets per channel, and skewed ones in which one channel pauses inside its message while others send whole messages of up to 129 packets and a further channel starts only afterwards; a third of the generated merges run on a receiver that still holds given-up transmissions on the same channels, half of them see stray continuation packets of an idle channel). Since rounds 7/8: payloads carrying another channel's id (every command x offset x byte order), merges starting while up to 1000 other channels hold unfinished transmissions, a transport failing one write call, one transmission with a real pause between packets. Non-trivial = message with at least one continuation packet, a refused over-long payload, or a merge of at least two channels; distinct by message / by (messages, order).".into();
     ctx.assumptions = vec![
         "the channel id byte order is accepted as either endianness but must be the same in all packets and round-trip".into(),
         "only messages the sender accepts are constrained; refusals at or below 7609 bytes are measured (Message::new refuses exactly 7609)".into(),
